@@ -484,7 +484,22 @@ fn refine_sig(prop: &str, kind: &str, c: &QCase, t: &LogicalTable, l: &Layout) -
     }
     let cn: Vec<String> = cn.into_iter().filter(|col| t.rows.iter().any(|r| !r.contains_key(col))).collect();
     let cn = if cn.is_empty() { String::new() } else { format!(":count-nullable{{{}}}", cn.join(",")) };
-    format!("{}:{}{}:{}", prop, kind, cn, layout_trait(t, l, &c.q)).replace(' ', "_")
+    // grouping keys whose value range makes them a 4-byte stored section (those are compressed, and the
+    // planner confuses the type of the compressed section with the type of its elements)
+    let mut u32keys = vec![];
+    for (e, _) in &c.q.select {
+        if let E::Col(name) = e {
+            let vals: Vec<i64> = t.rows.iter().filter_map(|r| match r.get(name) { Some(RVal::Int(x)) => Some(*x), _ => None }).collect();
+            if let (Some(min), Some(max)) = (vals.iter().min(), vals.iter().max()) {
+                let width = (*max as i128) - (*min as i128);
+                if width >= 65536 && width < (1i128 << 32) && c.q.select.iter().filter(|(e, _)| !e.has_agg()).count() >= 2 {
+                    u32keys.push(name.clone());
+                }
+            }
+        }
+    }
+    let u32keys = if u32keys.is_empty() { String::new() } else { format!(":u32-keys{{{}}}", u32keys.join(",")) };
+    format!("{}:{}{}{}:{}", prop, kind, cn, u32keys, layout_trait(t, l, &c.q)).replace(' ', "_")
 }
 
 pub struct QueryEngine {
@@ -703,7 +718,8 @@ fn c05_table(n: usize) -> LogicalTable {
 }
 
 pub fn c05_suite(tier: Tier) -> Suite {
-    let sizes: Vec<usize> = if tier == Tier::Quick { vec![10] } else { vec![10, 24] };
+    // table indices are the same in both tiers (replay looks tables up in the thorough suite)
+    let sizes: Vec<usize> = vec![10, 24];
     let mut tables = vec![];
     let mut layouts = vec![];
     let mut cases = vec![];
@@ -711,6 +727,9 @@ pub fn c05_suite(tier: Tier) -> Suite {
         let n = *n;
         tables.push(c05_table(n));
         layouts.push(std_layouts(n));
+        if tier == Tier::Quick && n != 10 {
+            continue;
+        }
         let keys: Vec<E> = vec![
             col("i"),
             col("ni"),
@@ -809,6 +828,37 @@ pub fn c05_suite(tier: Tier) -> Suite {
                 q.limit = Some(4);
                 q.offset = Some(1);
                 cases.push(QCase { table: ti, layout: li, q, mode: Mode::Ordered, nkeys: 1 });
+            }
+        }
+    }
+    // streamed top-n: a 40-row table in one partition read in streaming batches of 8 / 16 rows, so that
+    // the top-n heap (capacity LIMIT + OFFSET < 20 = half the partition) fills over several batches
+    // and keeps being updated by later ones; every single key x direction x windows around the
+    // batch sizes
+    {
+        let n = 40usize;
+        let ti = tables.len();
+        tables.push(c05_table(n));
+        let mk = |bs: usize, parts: Vec<usize>| Layout {
+            name: format!("bs{}-{:?}", bs, parts),
+            flush_after: vec![true; parts.len()],
+            batches: parts,
+            omit_null_cols: false,
+            opts: DbOpts { batch_size: bs, partition_combine_factor: 999, ..DbOpts::default() },
+            post: vec![],
+        };
+        layouts.push(vec![mk(8, vec![n]), mk(16, vec![n]), mk(8, vec![n - 3, 3])]);
+        for k in ["i", "ni", "f", "nf", "s", "ns", "m", "w", "nw"] {
+            for desc in [false, true] {
+                for (l, o) in [(7u64, 0u64), (8, 0), (9, 0), (5, 4), (1, 8), (15, 2), (17, 0), (3, 16), (19, 0), (10, 9)] {
+                    for li in 0..3 {
+                        let mut q = Q::select("t", vec![col("id"), col(k)]);
+                        q.order = vec![(col(k), desc)];
+                        q.limit = Some(l);
+                        q.offset = if o == 0 { None } else { Some(o) };
+                        cases.push(QCase { table: ti, layout: li, q, mode: Mode::Ordered, nkeys: 1 });
+                    }
+                }
             }
         }
     }
@@ -1103,6 +1153,9 @@ fn c04_range_table() -> LogicalTable {
             ), // nullable with min = 0
             ("v", ints(&[10, 20, 30, 40, 50, 60, 70, 80, 90, 100, 110, 120])),
             ("fv", floats(&[0.25, 1.5, -2.0, 3.75, 0.1, 0.2, 0.3, 10.0, -0.5, 2.5, 1e6, 1e-6])),
+            // sums of four rows: 2^63 (does not fit, although every partial sum of <= 3 rows does) / 2^62 (fits)
+            ("big", ints(&[1 << 61; 12])),
+            ("big2", ints(&[1 << 60, -(1 << 60), 1 << 60, 1 << 60, 1 << 60, 1 << 60, 1 << 60, 1 << 60, -(1 << 60), 1 << 60, 1 << 60, 1 << 60])),
         ],
     )
 }
@@ -1266,6 +1319,23 @@ pub fn c04_suite(tier: Tier) -> Suite {
                         q.filter = f.clone();
                         cases.push(QCase { table: 1, layout: li, q, mode: Mode::Multiset, nkeys: 0 });
                     }
+                }
+            }
+        }
+    }
+    // sums whose partial results fit 64 bits while the merged total does not (must fail with Overflow)
+    // or just does (exact value): no key and every single key of table r, every layout
+    {
+        let mut kls: Vec<Vec<E>> = vec![vec![]];
+        for k in ["a8", "b8", "d16", "e17", "m1", "h33"] {
+            kls.push(vec![col(k)]);
+        }
+        for kl in &kls {
+            for aset in [vec![agg(Agg::Sum, col("big"))], vec![agg(Agg::Sum, col("big2")), agg(Agg::Count, E::Int(1)), agg(Agg::Min, col("big2"))]] {
+                for li in 0..nl {
+                    let mut select = kl.clone();
+                    select.extend(aset.clone());
+                    cases.push(QCase { table: 1, layout: li, q: Q::select("r", select), mode: Mode::Multiset, nkeys: 0 });
                 }
             }
         }
